@@ -45,7 +45,7 @@ def gen_history(R, tier):
     have_origin = [False] * n_lf
     for _ in range(n_ops):
         lf = R.randrange(n_lf)
-        kind = R.choice(SIMPLE[:11] + ['origin'])
+        kind = R.choice(SIMPLE[:11] + ['origin', 'channel'])
         if n_lf > 1 and not share:
             sn = R.choice([f'P{pool_of[lf]}', f'P{pool_of[lf]}', f'P{pool_of[lf]}X'])
             if pool_of[lf] == 0 and R.random() < 0.5:
